@@ -98,6 +98,30 @@ def _all_args(call):
     return out
 
 
+_LIBM = ('cos', 'sin', 'tan', 'exp', 'log', 'sqrt', 'pow', 'fabs', 'abs', 'floor', 'ceil', 'atan2', 'acos', 'asin', 'atan', 'fmod')
+
+
+def _pure_function(h):
+    """the function touches nothing but its parameters and locals: no `this`, no global written, no call outside the standard library"""
+    local = _locals_of(h)
+    for n in SX.walk(h.body):
+        k = n['k']
+        if k == 'this':
+            return False
+        if k in ('call', 'mcall') and not (n.get('callee') or '').startswith('std::') and (n.get('callee') or '') not in _LIBM:
+            return False
+        if k == 'ref' and n.get('global') and not (n.get('t') or '').startswith('const'):
+            return False
+        w = SX.write_target(n)
+        if w:
+            l = SX.strip(w[0])
+            while SX.is_node(l) and l.get('k') in ('member', 'index'):
+                l = SX.strip(l.get('base'))
+            if not (SX.is_node(l) and l.get('k') == 'ref' and l.get('id') in local):
+                return False
+    return True
+
+
 class _Pseudo:
     """a local closure presented as a helper function"""
     def __init__(self, key, name, params, body, host):
@@ -241,6 +265,10 @@ class _Inliner:
         rets = [n for n in SX.walk(h.body, into_lambdas=False) if n['k'] == 'return']
         h_early = bool(rets) and not (len(rets) == 1 and body and body[-1] is rets[0])
         self._early[h.key] = h_early
+        if self.only is not None and h_early and (h.ret or 'void').strip() != 'void' and _pure_function(h):
+            # a value computed by case distinction from the arguments alone (a matrix builder, a predicate): rules read such a
+            # function as a function (expression folding, K-ABS) — turning it into statements would hide the value
+            return None
         if any(n['k'] in ('goto', 'label', 'unkstmt') or (n['k'] == 'var' and n.get('static')) for n in SX.walk(h.body)):
             return None      # a static local is one object for all calls: not expressible after inlining
         # a helper that calls itself (directly) is not inlined
@@ -569,6 +597,8 @@ def _rename_refs(n, ren, names=None):
         out['id'] = ren[out['id']]
         if out['id'] in names:
             out['name'] = names[out['id']]
+        if out['id'] in _PARAM_IDS[0]:
+            out['kind'] = 'param'       # renamed onto a parameter of the enclosing function
     return out
 
 
@@ -653,6 +683,7 @@ def _sroa(prog, body):
 
 
 _PROG = [None]
+_PARAM_IDS = [frozenset()]
 _STD_BYVALUE = ('std::to_string', 'std::abs', 'std::sqrt', 'std::norm', 'std::min', 'std::max', 'std::floor', 'std::ceil', 'std::pow', 'std::exp', 'std::cos',
                 'std::sin', 'std::real', 'std::imag', 'std::conj', 'std::isspace', 'std::isdigit', 'std::isalpha', 'std::isalnum')
 NAMES = [{}]
@@ -767,6 +798,28 @@ def _merge_init(body):
     return nb, cnt[0]
 
 
+def _member_stable(stmts, name):
+    """no statement writes this->name or calls a non-const member function / unknown function that could"""
+    for st in stmts:
+        for n in SX.walk(st):
+            w = SX.write_target(n)
+            if w:
+                l = SX.strip(w[0])
+                while SX.is_node(l) and l.get('k') in ('index',):
+                    l = SX.strip(l.get('base'))
+                if SX.is_this_member(l, name):
+                    return False
+            if n['k'] == 'mcall':
+                o = SX.strip(n.get('obj'))
+                if SX.is_node(o) and o.get('k') == 'this' and not n.get('constm'):
+                    return False
+                if SX.is_this_member(o, name) and not n.get('constm'):
+                    return False
+            if n['k'] == 'un' and n.get('op') in ('++', '--') and SX.is_this_member(SX.strip(n.get('e')), name):
+                return False
+    return True
+
+
 def _copyprop(body):
     """`[const] T v = x;` in a block, with v never written and x a scalar local not written by any later statement of that block: v is
     x (v's scope ends with the block, and a loop around the block re-executes the declaration)"""
@@ -794,6 +847,11 @@ def _copyprop(body):
             if init is not None and v.get('from_param') and init.get('k') in ('bool', 'int', 'float', 'char', 'str') and \
                     v['id'] not in allw and ('arg', v['id']) not in allw and not (v.get('type') or '').rstrip().endswith('&'):
                 consts[v['id']] = init      # a literal passed by value to an inlined helper: the parameter is that literal
+                drop.add(i)
+                continue
+            if init is not None and v.get('from_param') and SX.is_this_member(init) and v['id'] not in allw and ('arg', v['id']) not in allw \
+                    and not (v.get('type') or '').rstrip().endswith('&') and _member_stable(top[i + 1:], init['name']):
+                consts[v['id']] = init      # a member passed by value to an inlined helper, not modified while the copy is in use
                 drop.add(i)
                 continue
             if not (init is not None and init.get('k') == 'ref' and init.get('kind') in ('var', 'param') and init.get('id')):
@@ -837,12 +895,14 @@ def normalise(prog, f, depth=3, keep=(), only=None):
         nb = dict(f.body, body=inl.stmts(f.body['body'], frozenset([f.key]), depth))
         if inl.count:
             if inl.renames:
+                _PARAM_IDS[0] = frozenset(p_['id'] for p_ in f.params if p_.get('id'))
                 nb = _rename_refs(nb, inl.renames, _names_of(nb, f.params))
             nb, ns = _sroa(prog, nb)
             if ns:
                 nb, _nm = _merge_init(nb)
             _PROG[0] = prog
             _PARAMS[0] = f.params
+            _PARAM_IDS[0] = frozenset(p_['id'] for p_ in f.params if p_.get('id'))
             nb, nc = _copyprop(nb)
             _PROG[0] = None
             res = copy.copy(f)
